@@ -25,6 +25,10 @@ pub enum Op {
     ConcurrentGets { keys: Vec<u16>, schedule: Vec<u16> },
     /// 70 verified reads round-robin over all keys: makes the RAM tier run its (lazy) eviction
     Churn,
+    /// a new object is written while a read of its key is under way (the reader asked before the
+    /// object existed); once the write has completed, the writer reads the key through the cache.
+    /// Requests and the delivery of read responses are released by the schedule.
+    ReadAroundWrite { len: u8, schedule: Vec<u16> },
 }
 
 #[derive(Clone, Debug, Serialize, Deserialize)]
@@ -286,6 +290,73 @@ async fn run(case: &Case, core: Option<Arc<SimCore>>, out: &mut Outcome) {
                     }
                 }
             }
+            Op::ReadAroundWrite { len, schedule } => {
+                let c = match &core {
+                    Some(c) => c.clone(),
+                    None => continue,
+                };
+                let i = w.keys.len();
+                let name = key_name(i);
+                let data = content(i, LENS[*len as usize % 6]);
+                let early: Arc<parking_lot::Mutex<Option<Result<Bytes, String>>>> = Arc::new(parking_lot::Mutex::new(None));
+                let after: Arc<parking_lot::Mutex<Option<Result<Bytes, String>>>> = Arc::new(parking_lot::Mutex::new(None));
+                let mut hs = Vec::new();
+                {
+                    let (sut, name, early) = (w.sut.clone(), name.clone(), early.clone());
+                    hs.push(tokio::spawn(async move {
+                        let r = body(sut.get(&Path::from(name.as_str())).await).await;
+                        *early.lock() = Some(r);
+                    }));
+                }
+                {
+                    let (sut, name, after, data, writer) = (w.sut.clone(), name.clone(), after.clone(), data.clone(), c.node(1));
+                    hs.push(tokio::spawn(async move {
+                        if writer.put(&Path::from(name.as_str()), PutPayload::from(data)).await.is_ok() {
+                            // the write has completed: from here on the backing store holds the object
+                            let r = body(sut.get(&Path::from(name.as_str())).await).await;
+                            *after.lock() = Some(r);
+                        }
+                    }));
+                }
+                c.set_late_all_reads(true);
+                c.set_scheduled(true);
+                let run = drive_schedule(&c, &hs, schedule, None, 500).await;
+                c.set_scheduled(false);
+                c.set_late_all_reads(false);
+                if run.end != DriveEnd::Done {
+                    hs.iter().for_each(|h| h.abort());
+                    out.set_fail("concurrent-reads-did-not-finish", format!("{:?}", run.end));
+                    return;
+                }
+                for h in hs {
+                    let _ = h.await;
+                }
+                out.class("read-under-way-while-the-object-is-written");
+                let early_r = early.lock().clone();
+                if let Some(Err(_)) = &early_r {
+                    out.class("early-reader-told-not-found");
+                    out.nontrivial = true;
+                }
+                if let Some(Ok(b)) = &early_r {
+                    if b != &data {
+                        out.set_fail("wrong-bytes:read-around-write", format!("a read of {} that overlapped its creation returned {} bytes that are not the object ({} bytes)", name, b.len(), data.len()));
+                        return;
+                    }
+                }
+                match after.lock().clone() {
+                    Some(Ok(b)) if b == data => {}
+                    Some(Ok(b)) => {
+                        out.set_fail("wrong-bytes:get-after-write", format!("get on {} after its write completed returned {} bytes that differ from the stored object ({} bytes)", name, b.len(), data.len()));
+                        return;
+                    }
+                    Some(Err(e)) => {
+                        out.set_fail("fails-where-backing-store-succeeds:get-after-write", format!("get on {} started after the write of that object had completed, but failed: {} (a read of the key had been under way since before the object existed)", name, e));
+                        return;
+                    }
+                    None => {}
+                }
+                w.keys.push((name, data));
+            }
             Op::ConcurrentGets { keys, schedule } => {
                 if w.keys.is_empty() {
                     continue;
@@ -372,6 +443,7 @@ fn op() -> impl Strategy<Value = Op> {
         2 => any::<u8>().prop_map(|name| Op::GetMissing { name }),
         2 => Just(Op::Churn),
         3 => (prop::collection::vec(prop_oneof![Just(0u16), Just(20000u16), any::<u16>()], 2..5), prop::collection::vec(any::<u16>(), 0..10)).prop_map(|(keys, schedule)| Op::ConcurrentGets { keys, schedule }),
+        2 => (0u8..6, prop::collection::vec(any::<u16>(), 0..8)).prop_map(|(len, schedule)| Op::ReadAroundWrite { len, schedule }),
     ]
 }
 
@@ -383,7 +455,7 @@ pub fn def() -> PropDef {
     PropDef {
         id: "C16",
         level: "exploration",
-        rule: "histories of <=40 ops on CachedObjectStore(store, TieredCache{l1 in {1 B, 64 B, 4 KiB, 1 MiB}, l2 in {none, 16 MiB dir, 128 MiB dir}}): put-new-object (len in {0,1,100,3000,5000,70000}, rarely 8 MiB+1 / 9 MiB+5 / 16 MiB+3 - contents from a PRNG stream, so misplaced parts show; names that share file names / prefixes), get, get_range, get_opts{offset|suffix|bounded range, if_match, if_none_match with right / wrong etag}, head, get of similar-looking missing keys, concurrent gets of 2-4 keys (L1-only: inner reads gated and released by a generated schedule so misses on one key overlap; with a disk tier: spawned readers on a real-time runtime, sampled). Oracle: Ok => bytes equal the stored object (slice for ranges); no failure where the backing store answers; missing key => error. Non-trivial = a key read before is read again after it was evicted from L1 (observed through the miss counter), or two misses on one key overlapped.",
+        rule: "histories of <=40 ops on CachedObjectStore(store, TieredCache{l1 in {1 B, 64 B, 4 KiB, 1 MiB}, l2 in {none, 16 MiB dir, 128 MiB dir}}): put-new-object (len in {0,1,100,3000,5000,70000}, rarely 8 MiB+1 / 9 MiB+5 / 16 MiB+3 - contents from a PRNG stream, so misplaced parts show; names that share file names / prefixes), get, get_range, get_opts{offset|suffix|bounded range, if_match, if_none_match with right / wrong etag}, head, get of similar-looking missing keys, concurrent gets of 2-4 keys (L1-only: inner reads gated and released by a generated schedule so misses on one key overlap; with a disk tier: spawned readers on a real-time runtime, sampled), a new object written while a read of its key is under way, followed - once the write has completed - by a read of the key through the cache (L1-only; requests and the delivery of read responses released by the schedule). Oracle: Ok => bytes equal the stored object (slice for ranges); no failure where the backing store answers; missing key => error. Non-trivial = a key read before is read again after it was evicted from L1 (observed through the miss counter), or two misses on one key overlapped.",
         assumptions: &["write-once objects (no overwrite / delete in the generated domain)", "configurations the cache library rejects are counted and skipped", "with a disk tier the interleaving is not controlled (foyer uses its own threads)"],
         subs: || {
             vec![
